@@ -30,7 +30,7 @@ from harness.gnpy_util import NONE
 
 BOUNDS = {
     # tier -> list of MC runs (MaxSpans, LossSet, MultiUser, Rich, replay stride for profiles with >1 span)
-    'quick': [dict(max_spans=2, losses='MCLossesQuick', multi=False, rich=True, stride1=6, stride2=30, propagate_every=2)],
+    'quick': [dict(max_spans=2, losses='MCLossesQuick', multi=False, rich=True, stride1=6, stride2=30, propagate_every=3)],
     'thorough': [dict(max_spans=3, losses='MCLossesQuick', multi=False, rich=True, stride1=1, stride2=8, propagate_every=3),
                  dict(max_spans=2, losses='MCLossesFull', multi=False, rich=False, stride1=1, stride2=3, propagate_every=3),
                  dict(max_spans=1, losses='MCLossesFull', multi=True, rich=False, stride1=3, stride2=1, propagate_every=3)],
@@ -224,13 +224,9 @@ def report_b2(mism, verdicts, chk):
 
 
 # ---------------------------------------------------------------------------------------------- trace judging
-def judge(traces, ctxs, chk, tag, verdict_map=None):
-    """second pass: TLC (Trace_DesignPower) judges every recorded OMS; returns number of clean traces.
-    B3 traces: every failing clause is a violation.  B2 traces: the verdicts are returned in verdict_map and reported
-    by report_b2 together with the comparison against the model's expectation."""
-    if not traces:
-        return 0
-    ok = 0
+def tlc_verdicts(traces, chk, tag):
+    """one TLC (Trace_DesignPower) pass over the traces, in batches: {trace name: verdict}"""
+    verdicts = {}
     for lo in range(0, len(traces), 4000):
         batch = traces[lo:lo + 4000]
         res = tlc.run('Trace_DesignPower', extra_files={'trace.ndjson': U.ndjson(batch)},
@@ -239,8 +235,20 @@ def judge(traces, ctxs, chk, tag, verdict_map=None):
             raise Machinery(f'trace validation run failed: {res.error or res.violated}\n{res.out[-2000:]}')
         chk.states += res.distinct
         chk.transitions += res.generated
-        verdicts = {v['name']: v for v in res.emitted}
-        for t in batch:
+        verdicts.update({v['name']: v for v in res.emitted})
+    return verdicts
+
+
+def judge(traces, ctxs, chk, tag, verdict_map=None, pre=None):
+    """second pass: TLC (Trace_DesignPower) judges every recorded OMS; returns number of clean traces.
+    B3 traces: every failing clause is a violation.  B2 traces: the verdicts are returned in verdict_map and reported
+    by report_b2 together with the comparison against the model's expectation."""
+    if not traces:
+        return 0
+    ok = 0
+    verdicts = pre if pre is not None else tlc_verdicts(traces, chk, tag)      # pre: verdicts of a shared TLC pass
+    if True:
+        for t in traces:
             v = verdicts.get(t['name'])
             if v is None or v['n'] != len(t['ev']):
                 raise Machinery(f'no complete verdict for trace {t["name"]}')
@@ -284,12 +292,12 @@ def measured_deviations(traces):
     return dict(closure_residual=clo, signal_above_target=over, target_above_total=under)
 
 
-def selfcheck_monitor(traces, chk):
+def corrupted_traces(traces):
     """binding of the trace specification itself: corrupted copies of conforming traces must be rejected with the
     right clause (guards against a monitor that accepts everything)"""
     base = next((t for t in traces if len(t['ev']) >= 2 and all(e['jc'] and e['tot'] != NONE for e in t['ev'])), None)
     if base is None:
-        return
+        return []
     import copy
     muts = []
     m = copy.deepcopy(base); m['name'] = 'corrupt-gain'; m['ev'][1]['gain'] += 100000; muts.append((m, 'Closure'))
@@ -297,11 +305,11 @@ def selfcheck_monitor(traces, chk):
     muts.append((m, 'NeverAboveMaxOutput'))
     m = copy.deepcopy(base); m['name'] = 'corrupt-power'; m['ev'][1]['sig'] += 200000; m['ev'][1]['tot'] += 200000
     muts.append((m, 'DesignLoadReproduces'))
-    res = tlc.run('Trace_DesignPower', extra_files={'trace.ndjson': U.ndjson([x for x, _ in muts])},
-                  env={'TRACE_FILE': 'trace.ndjson'}, workers=1, timeout=600, tag='c09-selfcheck')
-    if not res.ok:
-        raise Machinery(f'monitor self-check run failed: {res.error}')
-    got = {v['name']: {c for _, c in v['viol']} for v in res.emitted}
+    return muts
+
+
+def check_corrupted(muts, verdicts, chk):
+    got = {n: {c for _, c in v['viol']} for n, v in verdicts.items()}
     for m, clause in muts:
         if clause not in got.get(m['name'], set()):
             raise Machinery(f'Trace_DesignPower accepted a corrupted trace ({m["name"]}: expected {clause}, got {got.get(m["name"])})')
@@ -318,7 +326,7 @@ def multiband_line():
     return U.line_topology(spans, roadm_a={'params': {'design_bands': bands}}, amps=amps, amp_type='Multiband_amplifier')
 
 
-def run_b3(chk):
+def collect_b3(chk):
     from harness.gnpy_util import TD
     traces, ctxs, stats = [], {}, {}
     n_amp = 0
@@ -344,6 +352,8 @@ def run_b3(chk):
         if tier == 'thorough' and chk.tier == 'quick':
             continue
         for mode in (True, False):
+            if strip and not mode and chk.tier == 'quick' and strip != 'args':
+                continue                        # generalised variants in gain mode: thorough tier only
             try:
                 bands = None
                 if strip == 'bands':
@@ -377,7 +387,11 @@ def run_b3(chk):
         except Exception as e:                                               # noqa
             chk.violation(f'B3|synthetic_multiband_line|design-exception|{type(e).__name__}',
                           dict(power_mode=mode, exception=f'{type(e).__name__}: {e}'))
-    ok = judge(traces, ctxs, chk, 'b3')
+    return traces, ctxs, n_amp, stats
+
+
+def finish_b3(chk, traces, ctxs, n_amp, stats, pre=None):
+    ok = judge(traces, ctxs, chk, 'b3', pre=pre)
     chk.traces += ok
     chk.cov['b3_oms_traces'] = len(traces)
     chk.cov['b3_amplifiers'] = n_amp
@@ -464,8 +478,12 @@ def run(chk):
     chk.cov['b2_clauses_exercised'] = exercised
     chk.cov['tolerance_b2_udb'] = TOL
     chk.cov['worst_deviation_b2_udb'] = dev[0]
+    # ONE TLC pass judges the replayed designs (B2), the recorded designs of the corpus (B3) and the corrupted copies
+    b3_traces, b3_ctx, b3_namp, b3_stats = collect_b3(chk)
+    muts = corrupted_traces(b3_traces + b2_traces)
+    pre = tlc_verdicts(b2_traces + b3_traces + [m for m, _ in muts], chk, 'traces')
     verdicts = {}
-    ok = judge(b2_traces, b2_ctx, chk, 'b2', verdict_map=verdicts)
+    ok = judge(b2_traces, b2_ctx, chk, 'b2', verdict_map=verdicts, pre=pre)
     chk.traces += ok
     report_b2(mism, verdicts, chk)
     # a design that equals the model but that the trace specification rejects: model and monitor disagree
@@ -481,8 +499,8 @@ def run(chk):
             else:
                 raise Machinery(f'design equal to the model is rejected by Trace_DesignPower: {nm} {v}')
     chk.cov['b2_traces_judged'] = len(b2_traces)
-    b3 = run_b3(chk)
-    selfcheck_monitor(b3 + b2_traces, chk)
+    b3 = finish_b3(chk, b3_traces, b3_ctx, b3_namp, b3_stats, pre=pre)
+    check_corrupted(muts, pre, chk)
     # the budget must also close at every step of a power sweep (transmission flow: redesign per step, Transmission.tla)
     from harness import sweep
     sweep.run(chk)
@@ -564,3 +582,8 @@ def _mut_sweep_stale_zero():      # the 0 dB step of a power sweep is propagated
 MUTANTS = {'sweep_stale_zero': _mut_sweep_stale_zero, 'round_floor': _mut_round_floor, 'voa_sign': _mut_voa_sign, 'sat_per_channel': _mut_sat_per_channel,
            'prev_voa_dropped': _mut_prev_voa_dropped, 'roadm_target_ignored': _mut_roadm_target_ignored,
            'reduce_with_margin': _mut_reduce_with_margin, 'clamp_low_only': _mut_clamp_low_only}
+
+
+def run_b3(chk):
+    """B3 alone (collect + judge), kept for interactive use"""
+    return finish_b3(chk, *collect_b3(chk))
